@@ -39,7 +39,7 @@ for i in range(1, 21):
         "replay_cmd_template": f"./check {pid} --replay {{path}}",
         "engine": "vmon",
         "level_claimed": {"category": m.LEVEL, "text": text, "design_ref": f"DESIGN.md §4 {pid}"},
-        "level_note": "; ".join(m.ASSUMPTIONS) + "; interpreter configuration is a workload dimension: one shard of every kind is repeated under python -O, -OO, an ASCII locale, warnings-as-errors around Chart.from_file and a lowered caller decimal context, shards alternate between package loggers at DEBUG and at WARNING, every fourth process starts with reports silenced (C20 instead starts its fresh interpreters with -O/-OO/-I/-S and with logging pre-configured for DEBUG)" + "; trusted base: CPython 3.12, the harness (vmon/*) and its independent model/oracles; held on the executions observed, not proved",
+        "level_note": "; ".join(m.ASSUMPTIONS) + "; interpreter configuration is a workload dimension: one shard of every kind is repeated under python -O, -OO, an ASCII locale, warnings-as-errors around Chart.from_file and a lowered caller decimal context, shards alternate between package loggers at DEBUG and at WARNING, every fourth process starts with reports silenced, every third process has a past (330 charts read and ~850 reports made before the first judged chart) (C20 instead starts its fresh interpreters with -O/-OO/-I/-S, with logging pre-configured for DEBUG and with the package in a zip archive); use is a dimension too: repeated use of one object (hundreds to thousands of questions), one chart shared by four threads for read-only use with switches provoked between chartparse statements, read-only uses aborted by a timer signal, attributes enumerated with inspect.getmembers, parts read after the Chart was dropped" + "; trusted base: CPython 3.12, the harness (vmon/*) and its independent model/oracles; held on the executions observed, not proved",
         "technique": tech,
     })
 man = {
